@@ -450,7 +450,7 @@ func genGcs(g *core.Gen) {
 			rec(g, "fr-edge", v != 0 && nm != 0, fmt.Sprintf("C20 fr %d %d", v, nm))
 		}
 	}
-	for i := 0; i < g.N(3000, 200000); i++ {
+	for i := 0; i < g.N(2000, 200000); i++ {
 		v, nm := r.U64(), r.U64()
 		switch r.Intn(4) {
 		case 0:
@@ -463,7 +463,7 @@ func genGcs(g *core.Gen) {
 		rec(g, "fr-rand", v != 0 && nm != 0, fmt.Sprintf("C20 fr %d %d", v, nm))
 	}
 	// raw Golomb-Rice reads over arbitrary bytes
-	for i := 0; i < g.N(1500, 50000); i++ {
+	for i := 0; i < g.N(1000, 50000); i++ {
 		p := r.Intn(33) // P > 32 cannot reach the reader through the API
 		d := r.Bytes(r.Intn(40))
 		if r.Chance(1, 4) { // long unary runs
@@ -765,7 +765,7 @@ func genGcsMore(g *core.Gen) {
 		rec(g, "gcs-nm32", nq > 0, fmt.Sprintf("C20 gcs %d %d %s %s %s", p, m, keyTok(r), itemsTok(items), itemsTok(qs)))
 	}
 	// --- deserialised filters: well-formed streams with a lying N, truncations, extensions, garbage
-	for i := 0; i < g.N(700, 30000); i++ {
+	for i := 0; i < g.N(500, 30000); i++ {
 		p := r.Intn(33)
 		if r.Chance(1, 12) {
 			p = 33 + r.Intn(223)
